@@ -79,6 +79,29 @@ fn is_fallible(instr: &str) -> bool {
 fn counterparts(rng: &mut Rng, n: usize) -> Vec<String> {
     let mut v: Vec<String> = pick_distinct(rng, &COUNTERPARTS, n).into_iter().map(|s| s.to_string()).collect();
     for c in v.iter_mut() {
+        if rng.chance(1, 6) {
+            // composed generic arguments: any mix of lifetimes (named, repeated, 'static, '_),
+            // types that nest lifetimes, plain types and const arguments
+            let base = *rng.pick(&["View", "Pair", "Holder", "Entity", "Wire", "api::Resp"]);
+            let n = rng.range(1, 5);
+            let mut args: Vec<String> = Vec::new();
+            for _ in 0..n {
+                let lt = *rng.pick(&["'a", "'b", "'x", "'y", "'z", "'static", "'_", "'x", "'long_lifetime_name"]);
+                args.push(match rng.below(9) {
+                    0 | 1 | 2 => lt.to_string(),
+                    3 => format!("&{} str", lt),
+                    4 => format!("Vec<&{} T>", lt),
+                    5 => format!("Cow<{}, str>", lt),
+                    6 => "T".to_string(),
+                    7 => "i32".to_string(),
+                    _ => "3".to_string(),
+                });
+            }
+            // lifetimes first, as the grammar wants
+            args.sort_by_key(|a| if a.starts_with('\'') { 0 } else { 1 });
+            *c = format!("{}<{}>", base, args.join(", "));
+            continue;
+        }
         if rng.chance(1, 5) {
             *c = match rng.below(3) {
                 0 => format!("Gen{}", rng.below(5000)),
@@ -475,6 +498,15 @@ pub fn gen_struct(rng: &mut Rng, class: Class) -> Item {
                     attrs.push(format!("child({})", g));
                 }
             }
+            if rng.chance(1, 400) {
+                // extreme nesting: [parent(...)] one or two hundred levels deep
+                let depth = rng.range(100, 260);
+                let mut inner = "leaf".to_string();
+                for d in 0..depth {
+                    inner = format!("[parent({})] n{}: N{}", inner, d, d);
+                }
+                attrs.push(format!("parent({})", inner));
+            }
             if (class == Class::W3Flatten && rng.chance(1, 5)) || rng.chance(1, 20) {
                 // parameterised parent
                 let ded = if rng.chance(1, 3) { format!("{}| ", rng.pick(&cps)) } else { String::new() };
@@ -784,7 +816,7 @@ pub fn inject_misuse(rng: &mut Rng, item: &mut Item, which: usize) -> &'static s
         40 => mem!("syntax:empty-child", "child()".to_string()),
         41 => mem!("syntax:bad-type-hint", "type_hint(as what)".to_string()),
         42 => mem!("syntax:bad-repeat-kind", "repeat(bogus)".to_string()),
-        43 => mem!("syntax:bad-parent-inner", "parent([bogus(x)] y)".to_string()),
+        43 => mem!("syntax:bad-parent-inner", rng.pick(&["parent([bogus(x)] y)", "parent([parent([bogus(x)] y)] inner: Inner)", "parent([parent([parent(a b)] mid: Mid)] inner: Inner, c)", "parent([parent(x)] [parent(y)] twice: T)"]).to_string()),
         44 => mem!("syntax:ghosts-no-colon", "ghosts(x)".to_string()),
         45 => ty!("syntax:empty-map", format!("{}()", rng.pick(&["map", "from", "try_into"]))),
         46 => ty!("syntax:vars-no-braces", format!("map({}| vars(x))", cp0)),
